@@ -450,6 +450,11 @@ def universe(case, runs):
         for o in r[1]:
             if o[0] == "y" and o[1] == "v" and o[2] not in tbl:
                 tbl.append(o[2])
+        # contents created by an inner layer that never reach the top (the enclosing layer answered with a query of
+        # its own and the script ended, or failed it) must be in the table too: the model's outer layer looks at them
+        for ev in r[2].get("mid", []):
+            if ev[0][0] == "v" and ev[0][1] not in tbl:
+                tbl.append(ev[0][1])
     return tbl
 
 
